@@ -379,18 +379,38 @@ class W09:
         KERNEL.begin_run(sched.Policy(), scope, hang_limit=SEQ_STEP_LIMIT, lib_scope=scope, engine=scope_files("engine"))
         KERNEL.abort_at = (at, InjectedAbort)
         KERNEL.abort_skip = cleanup_lines(scope)
+        state = {"aborted": False}
+
+        def fn2():
+            # the torn-down attempt and the retry happen on the same thread, as in a worker that
+            # catches the failure of one job and goes on with the next
+            try:
+                sc.scan(data, d)
+            except InjectedAbort:
+                state["aborted"] = True
+            except Exception:  # noqa: BLE001 - the fault was translated; the attempt has no result either way
+                pass
+            KERNEL.abort_at = None
+            try:
+                return sc.scan(data, d)
+            except Exception as e:  # noqa: BLE001
+                return e
+
         try:
             with watchdog(OP_LIMIT * 2):
-                at_task = KERNEL.run_tasks([fn], real_timeout=PAR_LIMIT)[0]
+                at_task = KERNEL.run_tasks([fn2], real_timeout=PAR_LIMIT)[0]
         except HangDetected:
             raise Harness("stall in abort_scan")
         finally:
             KERNEL.abort_at = None
         if KERNEL.hung:
             raise Harness("stall in abort_scan")
-        if not isinstance(at_task.error, InjectedAbort):
-            # the code under test swallowed or translated the fault; it still has no result
+        if not state["aborted"]:
+            # the code under test swallowed or translated the fault
             self.counters["aborts_swallowed"] = self.counters.get("aborts_swallowed", 0) + 1
+        if isinstance(at_task.error, kernel.StepLimitExceeded):
+            self.aborted = True
+        self.record(key, at_task.error if at_task.error is not None else at_task.result, task="after-abort")
 
     def do_par_scan(self, sid, jobs, spec):
         sc = self.scanners[sid]
